@@ -67,3 +67,5 @@ Theorem c13_tie_rec_notes : forall a, (match a with Chg => chg_notes | _ => "" e
 Proof. exact tie_rec_notes. Qed.
 Theorem c13_tie_rec_orders : map action_text [Del; Add; Chg] = src_rec_actions /\ ["kex"; "key"; "enc"; "mac"] = src_rec_categories.
 Proof. exact tie_rec_orders. Qed.
+Theorem c13_tie_extract_ok_recommendation_lists : extract_ok_recommendation_lists = true.
+Proof. exact tie_extract_ok_recommendation_lists. Qed.
